@@ -29,7 +29,7 @@ Qed.
 (** * Task table facts *)
 
 Definition ntasks (c : config) : nat := length (init_job c).
-Definition view0 (c : config) : list nat := isort (task_lat (init_job c)) (seq 0 (ntasks c)).
+Definition view0 (c : config) : list nat := sort_tasks (init_job c) (seq 0 (ntasks c)).
 Definition init_log (c : config) : list obs :=
   match init_job c with [] => [] | _ :: _ => [OInit (map t_peer (init_job c))] end.
 
@@ -89,51 +89,32 @@ Qed.
 Definition solo0 (c : config) (h : Z) : list obs * bool :=
   solo c (init_job c) (ntasks c) h 52 (view0 c) 0.
 
-(** no given peer stays silent when asked for this height *)
-Definition no_stall_at (c : config) (h : Z) : bool :=
-  forallb (fun p => negb (is_stall (c_beh c p h))) (job_peers c).
-
-Lemma view0_stall_free c h : no_stall_at c h = true -> stall_free c (init_job c) h (view0 c) = true.
-Proof.
-  intro H. unfold stall_free. apply forallb_forall. intros t Ht.
-  apply (proj1 (forallb_forall _ _) H (task_peer (init_job c) t)).
-  apply task_peer_in. apply (proj1 (Forall_forall _ _) (view0_valid c) t Ht).
-Qed.
-
 Lemma recheck_solo c h :
-  no_stall_at c h = true ->
-  exists arr tn idx vlen retry,
-    recheck c h = solo_state h arr tn idx vlen retry (PDone (snd (solo0 c h)))
+  exists arr tn own retry,
+    recheck c h = solo_state h arr tn own retry (PDone (snd (solo0 c h)))
                              (rev (fst (solo0 c h)) ++ init_log c).
 Proof.
-  intro Hns. unfold recheck.
+  unfold recheck.
   assert (Hinit : init_state (init_job c) [h]
-                  = solo_state h (seq 0 (ntasks c)) (zeros (ntasks c)) (repeat 0 (ntasks c))
-                               (ntasks c) 0 PStart (init_log c)).
+                  = solo_state h (seq 0 (ntasks c)) (zeros (ntasks c)) None 0 PStart (init_log c)).
   { unfold init_state, solo_state, init_log, ntasks, zeros. destruct (init_job c); reflexivity. }
   rewrite Hinit. change g_fuel with (S 317). rewrite run_g_unfold.
   cbn [solo_state s_gs nth next_event g_pc].
-  fold (solo_state h (seq 0 (ntasks c)) (zeros (ntasks c)) (repeat 0 (ntasks c)) (ntasks c) 0 PStart (init_log c)).
-  rewrite step_sort.
-  assert (Hsort : sort_view (init_job c) (seq 0 (ntasks c)) (ntasks c) = view0 c ++ []).
-  { unfold sort_view, view0.
-    rewrite firstn_all2 by (rewrite seq_length; lia).
-    rewrite skipn_all2 by (rewrite seq_length; lia). reflexivity. }
-  rewrite Hsort.
-  pose proof (sim c (init_job c) (ntasks c) h 52 317 (view0 c) [] (repeat 0 (ntasks c)) 0 (init_log c)) as Hs.
-  specialize (Hs (view0_valid c) (view0_stall_free c h Hns) (repeat_length _ _)).
+  fold (solo_state h (seq 0 (ntasks c)) (zeros (ntasks c)) None 0 PStart (init_log c)).
+  rewrite step_sort. fold (view0 c).
+  pose proof (sim c (init_job c) (ntasks c) h 52 317 (view0 c) None 0 (init_log c)) as Hs.
+  cbn [view_of] in Hs.
+  specialize (Hs (view0_valid c)).
   assert (H1 : 51 - 0 < 52) by lia.
   assert (H2 : 4 * 52 <= 317) by lia.
   specialize (Hs H1 H2).
-  destruct Hs as [arr [tn [idx [vlen [retry Hrun]]]]].
-  rewrite (view0_length c) in Hrun.
-  exists arr, tn, idx, vlen, retry. exact Hrun.
+  destruct Hs as [tn [own [retry Hrun]]].
+  exists (view0 c), tn, own, retry. exact Hrun.
 Qed.
 
-Lemma recheck_log_solo c h :
-  no_stall_at c h = true -> recheck_log c h = init_log c ++ fst (solo0 c h).
+Lemma recheck_log_solo c h : recheck_log c h = init_log c ++ fst (solo0 c h).
 Proof.
-  intro Hns. unfold recheck_log. destruct (recheck_solo c h Hns) as [arr [tn [idx [vlen [retry H]]]]]. rewrite H.
+  unfold recheck_log. destruct (recheck_solo c h) as [arr [tn [own [retry H]]]]. rewrite H.
   unfold solo_state. cbn [s_log]. rewrite rev_app_distr, rev_involutive.
   unfold init_log. destruct (init_job c); reflexivity.
 Qed.
@@ -141,16 +122,17 @@ Qed.
 Lemma req_peers_init c l : req_peers (init_log c ++ l) = req_peers l.
 Proof. unfold init_log. destruct (init_job c); reflexivity. Qed.
 
-(** a peer that failed is not asked again *)
-Lemma recheck_done c h : no_stall_at c h = true -> all_done (recheck c h) = true.
+(** every re-download returns *)
+Lemma recheck_done c h : all_done (recheck c h) = true.
 Proof.
-  intro Hns. destruct (recheck_solo c h Hns) as [arr [tn [idx [vlen [retry H]]]]]. rewrite H. reflexivity.
+  destruct (recheck_solo c h) as [arr [tn [own [retry H]]]]. rewrite H. reflexivity.
 Qed.
 
+(** a peer that failed is not asked again *)
 Lemma recheck_no_reask c h :
-  no_stall_at c h = true -> distinct_peers c = true -> no_reask_from c [] (recheck_log c h) = true.
+  distinct_peers c = true -> no_reask_from c [] (recheck_log c h) = true.
 Proof.
-  intros Hns Hd. rewrite (recheck_log_solo c h Hns). unfold solo0.
+  intros Hd. rewrite (recheck_log_solo c h). unfold solo0.
   assert (Hnd : NoDup (map (task_peer (init_job c)) (view0 c))).
   { apply (Permutation_NoDup (Permutation_sym (view0_peers c))). apply nodup_nat_spec. exact Hd. }
   destruct (solo_requests c (init_job c) (ntasks c) h 52 (view0 c) 0 Hnd) as [H1 [H2 H3]].
@@ -178,15 +160,15 @@ Qed.
 
 (** what is asked and what is handed over *)
 Lemma recheck_events c h o :
-  no_stall_at c h = true -> In o (recheck_log c h) ->
+  In o (recheck_log c h) ->
   match o with
   | OInit l => l = job_peers c
   | OReq h' p => h' = h /\ In p (job_peers c) /\ (h <=? c_adv c p)%Z = true
   | ODeliver bh p => In p (job_peers c) /\ (h <=? c_adv c p)%Z = true
-                     /\ exists a, accepted (c_beh c p h) = Some a /\ bh = deliver_height h a
+                     /\ accepted (c_beh c p h) = true /\ bh = h
   end.
 Proof.
-  intro Hns. rewrite (recheck_log_solo c h Hns). unfold solo0. intro Hin. apply in_app_or in Hin. destruct Hin as [Hin|Hin].
+  rewrite (recheck_log_solo c h). unfold solo0. intro Hin. apply in_app_or in Hin. destruct Hin as [Hin|Hin].
   - unfold init_log in Hin. pose proof (init_job_peers c) as Hp.
     destruct (init_job c); [inversion Hin|]. destruct Hin as [<-|[]]. exact Hp.
   - pose proof (solo_deliveries c (init_job c) (ntasks c) h 52 (view0 c) 0 o Hin) as H.
@@ -199,27 +181,20 @@ Proof.
       subst p. apply task_peer_in. apply (proj1 (Forall_forall _ _) (view0_valid c) t Ht).
 Qed.
 
-(** no given peer answers this height with a block of another height *)
-Definition no_wrong_at (c : config) (h : Z) : bool :=
-  forallb (fun p => match c_beh c p h with RWrong _ => false | _ => true end) (job_peers c).
-
+(** at most 50 given peers: the retry bound of downloadBlock is 50 *)
 Definition few_peers (c : config) : bool := length (job_peers c) <=? max_retry.
 
 (** a servable height is delivered *)
 Lemma recheck_delivers c h :
-  no_stall_at c h = true -> servable c h = true -> no_wrong_at c h = true -> few_peers c = true ->
+  servable c h = true -> few_peers c = true ->
   snd (solo0 c h) = true /\ exists p, In (ODeliver h p) (recheck_log c h).
 Proof.
-  intros Hns Hs Hw Hf. unfold few_peers in Hf. apply Nat.leb_le in Hf. rewrite (recheck_log_solo c h Hns). unfold solo0.
+  intros Hs Hf. unfold few_peers in Hf. apply Nat.leb_le in Hf. rewrite (recheck_log_solo c h). unfold solo0.
   destruct (solo_delivers c (init_job c) (ntasks c) h 52 (view0 c) 0) as [H1 [p Hp]].
   - unfold servable in Hs. apply existsb_exists in Hs. destruct Hs as [p [Hin Hp]].
     apply (Permutation_in _ (Permutation_sym (view0_peers c))) in Hin.
     apply in_map_iff in Hin. destruct Hin as [t [Ht Hin]].
     apply existsb_exists. exists t. split; [exact Hin|]. unfold good. rewrite Ht. exact Hp.
-  - unfold wrong_free. apply forallb_forall. intros t Ht.
-    unfold no_wrong_at in Hw.
-    apply (proj1 (forallb_forall _ _) Hw (task_peer (init_job c) t)).
-    apply task_peer_in. apply (proj1 (Forall_forall _ _) (view0_valid c) t Ht).
   - rewrite view0_length, ntasks_peers. simpl. exact Hf.
   - lia.
   - split; [exact H1|]. exists p. apply in_or_app. right. exact Hp.
